@@ -1,6 +1,7 @@
 //go:build verif
 
 //verif:dir p2p/host/resource-manager
+//verif:also C07 VerifC03dStreamLifecycle
 //verif:hook p2p/host/resource-manager resources.checkMemory
 //verif:hook p2p/host/resource-manager connLimiter.addConn
 //verif:hook p2p/host/resource-manager connLimiter.rmConn
